@@ -164,6 +164,11 @@ pub fn sweep(s: &mut Session, src_file: &str, fn_names: &[String]) -> Value {
                     .collect();
                 drop(views);
                 for a in &addrs {
+                    // another object (the interpreter, libc) may define the same name: the property
+                    // speaks about this binary's DWARF, locations in other objects are C17/C18's
+                    if !text0.iter().any(|(t, sz)| *t <= *a && *a < t + sz) {
+                        continue;
+                    }
                     let inside = instances.iter().find(|f| f.ranges.iter().any(|(lo, hi)| *lo <= *a && *a < *hi));
                     match inside {
                         None => findings.push(json!({"sig": "C04:fn->addr:address-outside-function", "detail": format!("break {name} chose {a:#x}, which is in none of the live instances {:x?}", instances.iter().map(|f| f.ranges.clone()).collect::<Vec<_>>())})),
